@@ -82,12 +82,12 @@
 #else
 #define VH_HISTORY 0
 #endif
-#if defined(FFSM2_ENABLE_LOG_INTERFACE) || defined(FFSM2_ENABLE_VERBOSE_DEBUG_LOG) || defined(FFSM2_ENABLE_ALL)
+#if defined(FFSM2_ENABLE_LOG_INTERFACE) || defined(FFSM2_ENABLE_VERBOSE_DEBUG_LOG)
 #define VH_LOG 1
 #else
 #define VH_LOG 0
 #endif
-#if defined(FFSM2_ENABLE_VERBOSE_DEBUG_LOG) || defined(FFSM2_ENABLE_ALL)
+#if defined(FFSM2_ENABLE_VERBOSE_DEBUG_LOG)
 #define VH_VERBOSE 1
 #else
 #define VH_VERBOSE 0
